@@ -59,6 +59,50 @@ func c11R3(c *Ctx, rule string) {
 	}
 }
 
+// callNonFunction: only function values can be called
+func callNonFunction(c *Ctx, rule string) {
+	p := c.P
+	c.note("%s call-non-function-is-error: callFunction returns successfully only for callees tagged function or native function (may-set of the callee's tag at every successful return); every other kind — null, a missing member included — is the runtime error `attempted to call …`.", rule)
+	cf := p.LangFunc("(*Evaluator).callFunction")
+	if cf == nil {
+		c.undecided(rule, "callFunction", "", "anchor not found")
+		return
+	}
+	loc := ""
+	for _, b := range cf.Blocks {
+		for _, rl := range FactsOf(cf).At(b).Rels() {
+			if _, isC := rl.y.(*ssa.Const); isC {
+				if name, _ := enumOf(p, rl.x); name == "ValueTag" && strings.Contains(p.Render(rl.x), "fn.Value.Tag") {
+					loc = p.Render(rl.x)
+				}
+			}
+		}
+	}
+	if loc == "" {
+		c.undecided(rule, "callee-kind-test", p.Pos(cf.Pos()), "callFunction does not test the callee's tag")
+		return
+	}
+	ms := p.maySetOf(cf, loc, valueTagNames(p))
+	n := 0
+	for _, r := range returnsOf(cf) {
+		res := effectiveResults(r)
+		if !EKOf(p).KindsAt(res[len(res)-1], FactsOf(cf).At(r.Block())).Has(KNil) {
+			continue
+		}
+		n++
+		var bad []string
+		for _, t := range ms.At(r.Block()) {
+			if t != "ValueFn" && t != "ValueNativeFn" {
+				bad = append(bad, t)
+			}
+		}
+		c.check(len(bad) == 0, rule, fmt.Sprintf("call-succeeds-only-for-functions return#%d", n), p.InstrPos(r), "callee is a function or a native function", "a call can return successfully although the callee's kind may be {"+strings.Join(bad, ", ")+"}: calling a non-function (e.g. a misspelt method) is silently ignored and the run continues")
+	}
+	if n < 2 {
+		c.undecided(rule, "call-succeeds-only-for-functions", p.Pos(cf.Pos()), "fewer than two successful returns found in callFunction")
+	}
+}
+
 // R5 parse-before-run
 func c11R5(c *Ctx, rule string) {
 	p := c.P
